@@ -15,6 +15,9 @@ def showArg : Arg → String
   | .reg x n => (if x then "X" else "W") ++ toString n
   | .cond c => s!"c{c}"
   | .imm v => s!"i{v}"
+  | .imm64 v => s!"q{v.toNat}"
+  | .immShift a b => s!"s{a}:{b}"
+  | .mem rn off => s!"m{rn}:{off}"
   | .other => "?"
 
 def showRes : Option Res → String
